@@ -177,6 +177,11 @@ func (cc *Conn) doInternal(req *pool.Message) (*pool.Message, error) {
 	if token == nil {
 		return nil, errors.New("invalid token")
 	}
+	// a token identifies one thing at a time: with the token of a live observation the request and the
+	// observation would share everything that arrives
+	if _, ok := cc.observationHandler.GetObservation(token.Hash()); ok {
+		return nil, fmt.Errorf("cannot add token(%v) handler: %w", token, coapErrors.ErrKeyAlreadyExists)
+	}
 	respChan := make(chan *pool.Message, 1)
 	if _, loaded := cc.tokenHandlerContainer.LoadOrStore(token.Hash(), func(_ *responsewriter.ResponseWriter[*Conn], r *pool.Message) {
 		r.Hijack()
@@ -343,6 +348,11 @@ func (cc *Conn) doObserve(req *pool.Message, observeFunc func(req *pool.Message)
 	// The registration waits for its answer. When it is issued from a handler the reader loop is
 	// busy with that handler, so - as for requests - let another loop process incoming messages meanwhile.
 	cc.receivedMessageReader.TryToReplaceLoop()
+	// a token identifies one thing at a time: a request that is waiting for its response under this token would
+	// share everything that arrives with the observation
+	if _, ok := cc.tokenHandlerContainer.Load(req.Token().Hash()); ok {
+		return nil, fmt.Errorf("cannot add token(%v) handler: %w", req.Token(), coapErrors.ErrKeyAlreadyExists)
+	}
 	return cc.observationHandler.NewObservation(req, observeFunc)
 }
 
